@@ -70,6 +70,8 @@ def run(ctx):
     chk.rule('FK2', 'every mutex acquired on the exec path is covered by a pthread_atfork registration: prepare '
                     'acquires it, parent releases it, child releases or re-initialises it', floor=1)
     chk.rule('FK3', 'the registration is in force before the first acquisition and is made once per process', floor=0)
+    chk.rule('FK5', 'the mutex locked by the prepare handler tolerates a second lock by its owner (handlers registered from a '
+                    'pthread_once routine can be registered twice across a fork)', floor=1)
     chk.rule('FK4', 'no lock of a kind the fork handlers cannot release in the child (file locks on inherited descriptors, '
                     'semaphores, rwlocks, spinlocks, condition waits) is taken on the exec path', floor=1)
     chk.explanation = (
@@ -175,6 +177,16 @@ def run(ctx):
                 chk.ob('FK3', 'registered-once[%s]' % m, once, c.where(), f.name,
                        '%s can run on every call: fork handlers would accumulate (and run N times per fork)' % f.name,
                        how='%s is only invoked through pthread_once' % f.name)
+                # pthread_once does not make the registration unique across fork: a child forked while another
+                # thread is inside the once routine (after the pthread_atfork call) finds the once control reset and
+                # runs the routine again on its first call - the handlers are then registered twice and the prepare
+                # handler locks the mutex twice in one thread on the child's next fork.  Only a mutex that tolerates
+                # re-locking by its owner survives that.
+                chk.ob('FK5', 'relock-tolerant[%s]' % m, m in special, sites[0][1].where(), sites[0][0].name,
+                       'the mutex the fork handlers lock is not recursive: with the handlers registered from a pthread_once '
+                       'routine a child forked during that routine registers them a second time, and its next fork() '
+                       'deadlocks in the prepare handler (second lock of a default mutex by its owner)',
+                       how='initialised with a PTHREAD_MUTEX_RECURSIVE attribute')
         if not locks:
             # nothing to protect: the property holds trivially in this variant; still require the
             # rule to have seen the code
